@@ -18,7 +18,7 @@ use crate::proto::*;
 
 /// One step of the reference transcript model.
 #[derive(Clone, Debug, PartialEq, Eq)]
-enum Expect {
+pub enum Expect {
     New,
     /// reseed with the named prover message
     Reseed(&'static str),
@@ -29,8 +29,8 @@ enum Expect {
     Integers,
 }
 
-struct Model {
-    steps: Vec<Expect>,
+pub struct Model {
+    pub steps: Vec<Expect>,
 }
 
 fn ext_degree(e: FieldExtension) -> usize {
@@ -42,7 +42,7 @@ fn ext_degree(e: FieldExtension) -> usize {
 }
 
 /// number of FRI layers for an LDE domain (independent restatement of the schedule)
-fn fri_layers(lde: usize, blowup: usize, folding: usize, rmax: usize) -> usize {
+pub fn fri_layers(lde: usize, blowup: usize, folding: usize, rmax: usize) -> usize {
     let mut d = lde;
     let mut l = 0;
     while d > (rmax + 1) * blowup {
@@ -53,7 +53,7 @@ fn fri_layers(lde: usize, blowup: usize, folding: usize, rmax: usize) -> usize {
 }
 
 /// The protocol's required order (the property's list), as data.
-fn reference_transcript<B: SimField>(case: &Case<B>, verifier: bool) -> Model {
+pub fn reference_transcript<B: SimField>(case: &Case<B>, verifier: bool) -> Model {
     let s = &case.shape;
     let o = &case.options;
     let n = s.len();
@@ -97,17 +97,17 @@ fn reference_transcript<B: SimField>(case: &Case<B>, verifier: bool) -> Model {
 }
 
 impl<B: SimField> Case<B> {
-    fn folding(&self) -> usize {
+    pub fn folding(&self) -> usize {
         self.options.to_fri_options().folding_factor()
     }
-    fn rmax(&self) -> usize {
+    pub fn rmax(&self) -> usize {
         self.options.to_fri_options().remainder_max_degree()
     }
 }
 
 /// Matches a recorded history against the model. Returns for every model step the range of log
 /// indices it covers, or a description of the first mismatch.
-fn refine(model: &Model, log: &[CoinOp], grinding: u32, verifier: bool) -> Result<Vec<(usize, usize)>, String> {
+pub fn refine(model: &Model, log: &[CoinOp], grinding: u32, verifier: bool) -> Result<Vec<(usize, usize)>, String> {
     let mut i = 0usize;
     let mut spans = vec![];
     for (k, st) in model.steps.iter().enumerate() {
@@ -490,4 +490,19 @@ pub fn spec() -> CheckSpec {
         ],
         arms,
     }
+}
+
+/// The values (canonical element bytes) of the verifier's draws for the model step whose label
+/// contains `label`, taken from a recorded verifier history.
+pub fn verifier_draws<B: SimField>(case: &Case<B>, vlog: &[CoinOp], label: &str) -> Option<Vec<Vec<u8>>> {
+    let m = reference_transcript(case, true);
+    let spans = refine(&m, vlog, case.options.grinding_factor(), true).ok()?;
+    for (st, (a, b)) in m.steps.iter().zip(spans.iter()) {
+        if let Expect::Draws(_, _, w) = st {
+            if w.contains(label) {
+                return Some(vlog[*a..*b].iter().filter_map(|o| if let CoinOp::Draw { value, .. } = o { Some(value.clone()) } else { None }).collect());
+            }
+        }
+    }
+    None
 }
